@@ -6,10 +6,16 @@
   write-before-check of `DigitString::shift` broke: `billion billion` gave `1000000001 1000000000`).
   It is proved generically for every instruction of the instruction language (T2N/Lemmas/Act.lean,
   `Act.exec_atomic`, by induction on the instruction) and lifted to the interpreters.
+
+  First clause (second half of this file): every non-decimal occurrence reported by `find_numbers`
+  validates on its own with the same digit text (`C07_span_validates`), for every language satisfying
+  `LangAgree` (T2N/Lemmas/Agree.lean) — in particular the seven interpreters (`C07_langAgree_all`).
 -/
 import T2N.Lemmas.Act
 import T2N.Model.Langs
 import T2N.Lemmas.LangFacts
+import T2N.Lemmas.Agree
+import T2N.Lemmas.SimpleCC
 
 namespace T2N.C07
 open T2N
@@ -102,5 +108,293 @@ theorem C07_reject_leaves_no_trace_dec_nl (w : Word) (b : DS) (e : Err) (h : (Nl
 `1000000001`) -/
 example : (En.apply w!"billion" { rbuf := [0,0,0,0,0,0,0,0,0,1] }) = (some .overlap, { rbuf := [0,0,0,0,0,0,0,0,0,1] }) := by
   decide
+
+/-! ## scanner and validator agree (first clause of C07)
+
+"Whenever the scanner reports a non-decimal occurrence over a span of words, validating exactly those
+words on their own yields the same digit text, so a span never contains a word that was rejected,
+never ends on a dangling conjunction, and never carries digits that its own words do not produce."
+
+The simulation proof is in T2N/Lemmas/Agree.lean (`AInv`, `push_agree`, `findNumbers_agree`), for every
+language that satisfies `LangAgree`; the seven interpreters are shown to satisfy it below.
+`spanWords cfg toks a b` = the lowercase texts of the tokens at positions `a ≤ i < b` that the scanner
+does not skip (`-` and white space); a token hinted `nan` is NOT filtered out: the theorem shows that
+none occurs inside a span whose words would not validate anyway. -/
+
+/-- **C07 (a span validates)**: every occurrence reported by `find_numbers` either carries decimals, or
+`text2digits` on exactly the words of its span answers `Ok` with the same digit text. -/
+theorem C07_span_validates (cfg : ScanCfg) (hl : LangAgree cfg.lang) (toks : List Tok) (occs : List Occ)
+    (h : findNumbers cfg toks = .ok occs) (o : Occ) (ho : o ∈ occs) :
+    o.isDecimal ∨ text2digitsWords cfg.lang (spanWords cfg toks o.start o.stop) = .ok o.text :=
+  (findNumbers_agree cfg hl toks occs h o ho).validates
+
+/-- **C07 (same number)**: more precisely `exec_group` accepts the words of the span and the number it
+builds has the text AND the value of the occurrence. -/
+theorem C07_span_same_number (cfg : ScanCfg) (hl : LangAgree cfg.lang) (toks : List Tok) (occs : List Occ)
+    (h : findNumbers cfg toks = .ok occs) (o : Occ) (ho : o ∈ occs) :
+    o.isDecimal ∨ ∃ ds, execGroup cfg.lang.apply (spanWords cfg toks o.start o.stop) = .ok ds ∧
+      ds.isEmpty = false ∧ cfg.lang.formatW ds = .ok (o.text, o.value) :=
+  (findNumbers_agree cfg hl toks occs h o ho).2
+
+/-- **C07 (no rejected word in a span)**: every word of the span of a non-decimal occurrence is accepted
+or answered `Incomplete` by the builder it meets when the span is interpreted on its own. -/
+theorem C07_span_no_rejected_word (cfg : ScanCfg) (hl : LangAgree cfg.lang) (toks : List Tok) (occs : List Occ)
+    (h : findNumbers cfg toks = .ok occs) (o : Occ) (ho : o ∈ occs) :
+    o.isDecimal ∨ stepsOk cfg.lang.apply (spanWords cfg toks o.start o.stop) DS.new := by
+  rcases C07_span_same_number cfg hl toks occs h o ho with hd | ⟨ds, h1, _, _⟩
+  · exact Or.inl hd
+  · exact Or.inr (execGroupFrom_stepsOk _ _ _ _ _ h1)
+
+/-- **C07 (no dangling conjunction)**: the last word of the span of a non-decimal occurrence is accepted
+(`Ok`, not `Incomplete`) by the builder that the words before it produce. -/
+theorem C07_span_last_word_accepted (cfg : ScanCfg) (hl : LangAgree cfg.lang) (toks : List Tok) (occs : List Occ)
+    (h : findNumbers cfg toks = .ok occs) (o : Occ) (ho : o ∈ occs) (ws : List Word) (w : Word)
+    (hw : spanWords cfg toks o.start o.stop = ws ++ [w]) :
+    o.isDecimal ∨ (cfg.lang.apply w (foldApply cfg.lang.apply ws DS.new)).1 = none := by
+  rcases C07_span_same_number cfg hl toks occs h o ho with hd | ⟨ds, h1, _, _⟩
+  · exact Or.inl hd
+  · right
+    unfold execGroup at h1
+    rw [hw] at h1
+    exact execGroupFrom_last_ok _ _ _ _ _ _ h1
+
+/-- **C07 (the running invariant)**: outside decimal mode, while a match is open, the parser's integer
+builder is exactly `apply` folded from the fresh builder over the words of the non-skipped tokens
+pushed since the match was opened. -/
+theorem C07_parser_is_fold (cfg : ScanCfg) (hl : LangAgree cfg.lang) (toks : List Tok) (s : Scanner)
+    (h : Scanner.pushAll cfg {} (enumFrom 0 toks) = .ok s)
+    (hn : s.parser.hasNumber = true) (hd : s.parser.isDec = false) :
+    s.parser.int = foldApply cfg.lang.apply (spanWords cfg toks s.tracker.mstart toks.length) DS.new := by
+  have hinv := pushAll_agree cfg hl toks [] {} s (AInv.init cfg) h
+  rw [List.nil_append] at hinv
+  exact hinv.int_eq_fold hn hd
+
+/-! ### the seven interpreters satisfy `LangAgree` -/
+
+theorem lookup_all (P : Act → Bool) (l : List (Word × Act)) (hl : (l.all fun p => P p.2) = true)
+    (hd : P (.fail .nan) = true) (k : Word) : P ((l.lookup k).getD (.fail .nan)) = true := by
+  induction l with
+  | nil => exact hd
+  | cons p ps ih =>
+    cases p with
+    | mk a v =>
+      rw [List.all_cons, Bool.and_eq_true] at hl
+      rw [List.lookup_cons]
+      cases hk : (k == a) with
+      | true => exact hl.1
+      | false => exact ih hl.2
+
+/-- assembling `LangAgree` from the facts of T2N/Lemmas/LangFacts.lean and the three extra ones -/
+theorem langAgree_of (l : Lang)
+    (h1 : ∀ w b e, (l.apply w b).1 = some e → T2N.SameButFlags b (l.apply w b).2)
+    (h2 : ∀ w b, (l.apply w b).1 = none → (l.apply w b).2.isEmpty = false)
+    (h3 : ∀ w e, (l.apply w DS.new).1 = some e → (l.apply w DS.new).2 = DS.new)
+    (h4 : ∀ w d e, (l.applyDecimal w d).1 = some e → T2N.SameButFlags d (l.applyDecimal w d).2)
+    (h5 : ∀ w d, (l.applyDecimal w d).1 = none → (l.applyDecimal w d).2.isEmpty = false)
+    (h6 : ∀ b, ∃ e, (l.apply [','] b).1 = some e ∧ e ≠ .incomplete)
+    (h7 : l.isDecSep [','] = false) : LangAgree l where
+  err_same := h1
+  ok_nonempty := h2
+  err_new := h3
+  dec_err := fun w d e he => (h4 w d e he).isEmpty_eq
+  dec_ok := h5
+  comma_rejected := h6
+  comma_not_sep := h7
+
+/-! a word refused on the fresh builder leaves the fresh builder, flags included -/
+
+theorem apply_err_new_fr (w : Word) (e : Err) (h : (Fr.apply w DS.new).1 = some e) :
+    (Fr.apply w DS.new).2 = DS.new := by
+  unfold Fr.apply Fr.applyFuel at *
+  by_cases hc : w.contains '-' = true
+  · rw [if_pos hc] at h ⊢
+    cases hg : execGroup (Fr.applyFuel 1) (splitOnChar '-' w) with
+    | error e' => rfl
+    | ok ds => rw [hg] at h; exact mergeGroup_atomic DS.new ds true ds.marker e h
+  · rw [if_neg hc] at h ⊢
+    dsimp only at h ⊢
+    have hw := lookup_wf Fr.vocab Fr.vocab_wf (Fr.lemmatize w)
+    rcases Act.exec_cases _ hw DS.new with ⟨e', tb, he⟩ | ⟨b', tb, he, _⟩
+    · rw [he]; rfl
+    · rw [he] at h; simp at h
+
+theorem apply_err_new_de (w : Word) (e : Err) (h : (De.apply w DS.new).1 = some e) :
+    (De.apply w DS.new).2 = DS.new := by
+  unfold De.apply De.applyFuel at *
+  dsimp only at h ⊢
+  by_cases hc : isSplittable De.patterns (De.lemmatize w) = true
+  · rw [if_pos hc] at h ⊢
+    cases hg : execGroup (De.applyFuel 1) (splitWord De.patterns (De.lemmatize w)) with
+    | error e' => rfl
+    | ok ds => rw [hg] at h; exact mergeGroup_atomic DS.new ds false ds.marker e h
+  · rw [if_neg hc] at h ⊢
+    have hw := lookup_wf De.vocab De.vocab_wf (De.lemmatize w)
+    rcases Act.exec_cases _ hw DS.new with ⟨e', tb, he⟩ | ⟨b', tb, he, _⟩
+    · rw [he]; rfl
+    · rw [he] at h; simp at h
+
+theorem apply_err_new_nl (w : Word) (e : Err) (h : (Nl.apply w DS.new).1 = some e) :
+    (Nl.apply w DS.new).2 = DS.new := by
+  unfold Nl.apply Nl.applyFuel at *
+  by_cases hc : isSplittable Nl.patterns w = true
+  · rw [if_pos hc] at h ⊢
+    cases hg : execGroup (Nl.applyFuel 1) (splitWord Nl.patterns w) with
+    | error e' => rfl
+    | ok ds => rw [hg] at h; exact mergeGroup_atomic DS.new ds false ds.marker e h
+  · rw [if_neg hc] at h ⊢
+    dsimp only at h ⊢
+    have hw := lookup_wf Nl.vocab Nl.vocab_wf w
+    rcases Act.exec_cases _ hw DS.new with ⟨e', tb, he⟩ | ⟨b', tb, he, _⟩
+    · rw [he]; rfl
+    · rw [he] at h; simp at h; split at h <;> simp at h
+
+theorem apply_err_new_it (w : Word) (e : Err) (h : (It.apply w DS.new).1 = some e) :
+    (It.apply w DS.new).2 = DS.new := by
+  unfold It.apply It.applyFuel at *
+  dsimp only at h ⊢
+  by_cases hc : isSplittable It.patterns (It.lemmatize w) = true
+  · rw [if_pos hc] at h ⊢
+    cases hg : execGroup (It.applyFuel 1) (splitWord It.patterns (It.lemmatize w)) with
+    | error e' => rfl
+    | ok ds => rw [hg] at h; exact mergeGroup_atomic DS.new ds false (It.morph w) e h
+  · rw [if_neg hc] at h ⊢
+    have hw : (if (It.lemmatize w == w!"non" && w == w!"non") = true then Act.fail Err.nan
+        else (It.vocab.lookup (It.lemmatize w)).getD (.fail .nan)).wf = true := by
+      split
+      · rfl
+      · exact lookup_wf It.vocab It.vocab_wf (It.lemmatize w)
+    rcases Act.exec_cases _ hw DS.new with ⟨e', tb, he⟩ | ⟨b', tb, he, _⟩
+    · rw [he]; rfl
+    · rw [he] at h; simp at h; split at h <;> simp at h
+
+theorem apply_err_new_es (w : Word) (e : Err) (h : (Es.apply w DS.new).1 = some e) :
+    (Es.apply w DS.new).2 = DS.new := by
+  unfold Es.apply at *
+  dsimp only at h ⊢
+  split
+  · rfl
+  · rename_i hc
+    rw [if_neg hc] at h
+    have hw := lookup_wf Es.vocab Es.vocab_wf (Es.lemmatize w)
+    rcases Act.exec_cases _ hw DS.new with ⟨e', tb, he⟩ | ⟨b', tb, he, _⟩
+    · rw [he]; rfl
+    · rw [he] at h; simp at h
+
+/-- pt rewrites the flags to `CONJUNCTION` after `Incomplete`; but no word is `Incomplete` on the
+fresh builder (the conjunction "e" needs two digits) -/
+theorem Pt.new_not_incomplete (mnone : Bool) :
+    ((Pt.vocab mnone).all fun p => (p.2.exec DS.new).1 != some .incomplete) = true := by
+  cases mnone <;> decide
+
+theorem apply_err_new_pt (w : Word) (e : Err) (h : (Pt.apply w DS.new).1 = some e) :
+    (Pt.apply w DS.new).2 = DS.new := by
+  unfold Pt.apply at *
+  dsimp only at h ⊢
+  have hc : ¬ ((!DS.new.isEmpty && Pt.morph w != DS.new.marker) = true) := by
+    intro hc; revert hc; cases (Pt.morph w != DS.new.marker) <;> decide
+  rw [if_neg hc] at h ⊢
+  have hni := lookup_all (fun a => (a.exec DS.new).1 != some .incomplete) (Pt.vocab (Pt.morph w).isNone)
+    (Pt.new_not_incomplete _) (by decide) (Pt.lemmatize w)
+  cases hr : (((Pt.vocab (Pt.morph w).isNone).lookup (Pt.lemmatize w)).getD (.fail .nan)).exec DS.new with
+  | mk r rest =>
+    cases rest with
+    | mk b' next =>
+      rw [hr] at h hni
+      dsimp only at h hni ⊢
+      have hat := Act.exec_atomic (((Pt.vocab (Pt.morph w).isNone).lookup (Pt.lemmatize w)).getD (.fail .nan)) DS.new
+      rw [hr] at hat
+      cases r with
+      | none => simp at h
+      | some e' =>
+        have hb : b' = DS.new := hat e' rfl
+        subst hb
+        cases e' with
+        | incomplete => simp at hni
+        | overlap => rfl
+        | nan => rfl
+        | frozen => rfl
+
+/-! the forced stop `","` is refused with `NaN` (es, pt: or `Overlap`) -/
+
+theorem apply_comma_es (b : DS) : ∃ e, (Es.apply [','] b).1 = some e ∧ e ≠ .incomplete := by
+  unfold Es.apply
+  dsimp only
+  split
+  · exact ⟨.overlap, rfl, by intro h; cases h⟩
+  · exact ⟨.nan, rfl, by intro h; cases h⟩
+
+theorem apply_comma_pt (b : DS) : ∃ e, (Pt.apply [','] b).1 = some e ∧ e ≠ .incomplete := by
+  unfold Pt.apply
+  dsimp only
+  split
+  · exact ⟨.overlap, rfl, by intro h; cases h⟩
+  · exact ⟨.nan, rfl, by intro h; cases h⟩
+
+theorem C07_langAgree_en : LangAgree En.lang :=
+  langAgree_of En.lang En.apply_err_same En.apply_ok_nonempty
+    (fun w e h => C07_apply_atomic_en w DS.new e h)
+    En.applyDecimal_err_same En.applyDecimal_ok_nonempty
+    (fun _ => ⟨.nan, rfl, by intro h; cases h⟩) rfl
+
+theorem C07_langAgree_fr : LangAgree Fr.lang :=
+  langAgree_of Fr.lang Fr.apply_err_same Fr.apply_ok_nonempty apply_err_new_fr
+    Fr.applyDecimal_err_same Fr.applyDecimal_ok_nonempty
+    (fun _ => ⟨.nan, rfl, by intro h; cases h⟩) rfl
+
+theorem C07_langAgree_es : LangAgree Es.lang :=
+  langAgree_of Es.lang Es.apply_err_same Es.apply_ok_nonempty apply_err_new_es
+    Es.applyDecimal_err_same Es.applyDecimal_ok_nonempty apply_comma_es rfl
+
+theorem C07_langAgree_pt : LangAgree Pt.lang :=
+  langAgree_of Pt.lang Pt.apply_err_same Pt.apply_ok_nonempty apply_err_new_pt
+    Pt.applyDecimal_err_same Pt.applyDecimal_ok_nonempty apply_comma_pt rfl
+
+theorem C07_langAgree_it : LangAgree It.lang :=
+  langAgree_of It.lang It.apply_err_same It.apply_ok_nonempty apply_err_new_it
+    It.applyDecimal_err_same It.applyDecimal_ok_nonempty
+    (fun _ => ⟨.nan, rfl, by intro h; cases h⟩) rfl
+
+theorem C07_langAgree_de : LangAgree De.lang :=
+  langAgree_of De.lang De.apply_err_same De.apply_ok_nonempty apply_err_new_de
+    De.applyDecimal_err_same De.applyDecimal_ok_nonempty
+    (fun _ => ⟨.nan, rfl, by intro h; cases h⟩) rfl
+
+theorem C07_langAgree_nl : LangAgree Nl.lang :=
+  langAgree_of Nl.lang Nl.apply_err_same Nl.apply_ok_nonempty apply_err_new_nl
+    Nl.applyDecimal_err_same Nl.applyDecimal_ok_nonempty
+    (fun _ => ⟨.nan, rfl, by intro h; cases h⟩) rfl
+
+theorem C07_langAgree_all : ∀ l ∈ allLangs, LangAgree l := by
+  intro l hl
+  simp only [allLangs, List.mem_cons, List.not_mem_nil, or_false] at hl
+  rcases hl with rfl | rfl | rfl | rfl | rfl | rfl | rfl
+  · exact C07_langAgree_en
+  · exact C07_langAgree_fr
+  · exact C07_langAgree_es
+  · exact C07_langAgree_pt
+  · exact C07_langAgree_it
+  · exact C07_langAgree_de
+  · exact C07_langAgree_nl
+
+/-- **C07 for the seven interpreters**, any character classes, separation relation, threshold, hints -/
+theorem C07_span_validates_builtin (cfg : ScanCfg) (hl : cfg.lang ∈ allLangs) (toks : List Tok)
+    (occs : List Occ) (h : findNumbers cfg toks = .ok occs) (o : Occ) (ho : o ∈ occs) :
+    o.isDecimal ∨ text2digitsWords cfg.lang (spanWords cfg toks o.start o.stop) = .ok o.text :=
+  C07_span_validates cfg (C07_langAgree_all cfg.lang hl) toks occs h o ho
+
+/-! non-vacuity: in `one hundred and foo two point five` the scanner reports `100` over the tokens
+`[0, 3)` (`one`, space, `hundred`: the `and` was answered `Incomplete` and stays outside the span, `foo`
+was refused) and the decimal `2.5`; the words of the first span validate to `100` on their own. -/
+def exPhrase : List Word := [w!"one", w!"hundred", w!"and", w!"foo", w!"two", w!"point", w!"five"]
+
+example : (findNumbers (scanCfg En.lang zeroThr) (wordTokens exPhrase)).toOption.map
+    (fun os => os.map fun o => (o.start, o.stop, o.text)) = some [(0, 3, w!"100"), (8, 13, w!"2.5")] := by
+  decide +kernel
+
+example : spanWords (scanCfg En.lang zeroThr) (wordTokens exPhrase) 0 3 = [w!"one", w!"hundred"] := by
+  decide +kernel
+
+example : text2digitsWords En.lang (spanWords (scanCfg En.lang zeroThr) (wordTokens exPhrase) 0 3) = .ok w!"100" := by
+  decide +kernel
 
 end T2N.C07
